@@ -52,7 +52,7 @@ SIMPLE = {
     'begin': Q('BEGIN'), 'select': Q('SELECT 1'), 'commit': Q('COMMIT'), 'rollback': Q('ROLLBACK'), 'error': Q('SELECT 1/0'),
     'set': Q('SET statement_timeout TO 5'), 'setrole': Q('SET ROLE r'), 'prepare': Q('PREPARE p AS SELECT 1'),
     'setlocal': Q('SET LOCAL x TO 1'), 'copyin': Q('COPY t FROM STDIN'), 'copyout': Q('COPY t TO STDOUT'), 'empty': Q(';'),
-    'select2': Q('SELECT 2'), 'd': msg('d', b'1\n'), 'c': msg('c'), 'f': msg('f', b'stop\0'), 'multi': Q('BEGIN; SELECT 1'), 'sync': S, 'flush': H,
+    'select2': Q('SELECT 2'), 'qt1': Q('SELECT * FROM t1'), 'qt2': Q('SELECT * FROM t2'), 'd': msg('d', b'1\n'), 'c': msg('c'), 'f': msg('f', b'stop\0'), 'multi': Q('BEGIN; SELECT 1'), 'sync': S, 'flush': H,
 }
 
 
@@ -88,7 +88,8 @@ def sym_code(body=b''):
 
 
 EXT = {'P?': sym_parse, 'B?': sym_bind, 'D?': sym_describe, 'C?': sym_close, 'E': lambda: conc_msg('E', E()),
-       'P': lambda: conc_msg('P', P('', 'SELECT 1')), 'P2': lambda: conc_msg('P2', P('', 'SELECT 2')), 'Ps': lambda: conc_msg('Ps', P('s1', 'SELECT 1')), 'Bs': lambda: conc_msg('Bs', B('', 's1')),
+       'P': lambda: conc_msg('P', P('', 'SELECT 1')), 'P2': lambda: conc_msg('P2', P('', 'SELECT 2')),
+       'Pt1': lambda: conc_msg('Pt1', P('', 'SELECT * FROM t1')), 'Pt2': lambda: conc_msg('Pt2', P('', 'SELECT * FROM t2')), 'Ps': lambda: conc_msg('Ps', P('s1', 'SELECT 1')), 'Bs': lambda: conc_msg('Bs', B('', 's1')),
        'B': lambda: conc_msg('B', B('', '')), 'Cs': lambda: conc_msg('Cs', C('S', 's1')), 'Ds': lambda: conc_msg('Ds', D('S', 's1')),
        'S': lambda: conc_msg('S', S), 'H': lambda: conc_msg('H', H), 'X': lambda: conc_msg('X', X)}
 
@@ -123,6 +124,7 @@ class Case:
         s += '' if self.mode == 'transaction' else '/session'
         s += '/cache' if self.cache else ''
         s += '' if len(self.roles) == 1 else '/%dbackends' % len(self.roles)
+        s += '/symstatus' if self.sym_status else ''
         s += '' if self.paused is None else '/paused:%s' % (self.paused,)
         s += ('/plugins' if self.plugins is True else '/plugins:%s' % self.plugins) if self.plugins else ''
         return s
@@ -204,6 +206,10 @@ def run_case(chk, ob, ip, prog, case, props, extra_judge=None):
         V = HE.judge(data, eff, dec, cache_on=bool(case.cache), expect_incomplete=inc, denied=denied, allow_pooler_replies=case.plugins)
         if extra_judge:
             V += extra_judge(env, data, complete, dec)
+        if case.paused is not None and not inc:
+            # RESUME releases every held client: after it, the session must run to its end
+            if data['outcome'][0] == 'pending' or any(k == 'H/request-not-forwarded' for _p, k, _t in V):
+                V.append(('C16', 'H/held-after-resume', 'the client is still held (or its request was dropped) after RESUME'))
         for prop, key, text in V:
             if prop not in props:
                 continue
@@ -211,6 +217,22 @@ def run_case(chk, ob, ip, prog, case, props, extra_judge=None):
             hexs = bytes(model_byte(m, b) for b in sent).hex()
             cmd = {'op': 'handle_script', 'client_hex': hexs, 'eof': True, 'mode': case.mode, 'cache': case.cache,
                    'roles': ['primary' if r == 0 else 'replica' for r in case.roles]}
+            if case.sym_status:
+                cmd['statuses'] = [model_byte(m, r['status_after']) for r in data['reqs'] if r['bytes'][0].concrete and r['bytes'][0].v == ord('Q')
+                                   and r.get('status_after') is not None]
+            if case.plugins:
+                # the witness verdicts become a real plugin configuration: table_access on the tables of denied statements,
+                # intercept rules for the intercepted ones
+                deny, icpt = [], []
+                for k, vd in verdicts.items():
+                    t = re.search(rb'FROM (t\d)', HE.conc(msgs[k]) or b'')
+                    if t and vd == 1:
+                        deny.append(t.group(1).decode())
+                    elif t and vd == 2:
+                        icpt.append('select * from ' + t.group(1).decode())
+                cmd['deny_tables'] = sorted(set(deny))
+                if icpt:
+                    cmd['intercept'] = sorted(set(icpt))
             if case.paused is not None:
                 k = 0 if isinstance(case.paused, str) else case.paused[1]
                 cut = sum(len(mm) for mm in msgs[:k])
@@ -228,7 +250,9 @@ def run_case(chk, ob, ip, prog, case, props, extra_judge=None):
                 n_before = len(HE.default_forward(msgs[:k]))
             chk.report(ob, '%s/%s' % (prop, key), '%s [script %s]' % (text, case.label()),
                        {'script': case.label(), 'client_bytes_hex': hexs, 'outcome': list(data['outcome'])},
-                       {'commands': [cmd], 'expect': ['h_violation', prop, key, bool(case.cache), inc, hexs, n_before]})
+                       {'commands': [cmd], 'expect': ['h_violation', prop, key, bool(case.cache), inc, hexs, n_before,
+                                                      [bytes(model_byte(m, b) for b in dm).hex() for dm in (denied_msgs if case.plugins else [])],
+                                                      [bytes(model_byte(m, b) for mm in eff for b in mm).hex()] if case.plugins else None]})
         if len(ob.samples) < 2:
             ob.samples.append({'script': case.label(), 'outcome': str(data['outcome']), 'events': [str(e) for e in env.events][:8]})
     ip.explore(harness, max_paths=4000)
@@ -315,7 +339,7 @@ def model_byte(m, b):
 
 
 @expectation('h_violation')
-def h_violation(prop, key, cache_on, incomplete, hexs, n_before=None):
+def h_violation(prop, key, cache_on, incomplete, hexs, n_before=None, denied_hex=(), eff_hex=None):
     """Native confirmation: the same reference model, evaluated on what the Rust reference backends and the two client
     sockets observed when the concrete script was played against the compiled pgcat."""
     def f(res):
@@ -323,13 +347,18 @@ def h_violation(prop, key, cache_on, incomplete, hexs, n_before=None):
         if 'error' in r or 'panic' in r:
             return False, 'native: %r' % (r,)
         data = HE.collect_native(r)
-        complete, _rest = HE.split_messages(HE.bvs(hexs), 'client script')
-        V = HE.judge(data, complete, HE.Decider(None), cache_on=cache_on, expect_incomplete=incomplete)
+        complete, _rest = HE.split_messages(HE.bvs(eff_hex[0] if eff_hex else hexs), 'client script')
+        dmsgs = [HE.bvs(h) for h in (denied_hex or ())]
+        dec = HE.Decider(None)
+        V = HE.judge(data, complete, dec, cache_on=cache_on, expect_incomplete=incomplete,
+                     denied=(lambda mm: any(HE.same_bytes(dec, mm, dm) for dm in dmsgs)) if dmsgs else None, allow_pooler_replies=bool(eff_hex))
         hit = [v for v in V if v[0] == prop and v[1] == key]
-        if prop == 'C16':
+        if prop == 'C16' and key == 'H/checkout-while-paused':
             # natively the pause gate is observed as: a request sent after PAUSE reaches a backend while the pool is still paused
             n = sum(1 for rq in data['reqs'] if rq.get('origin') == 'client')
             hit = [1] if (r.get('paused_at_end') and n > (n_before or 0)) else []
+        if prop == 'C16' and key == 'H/held-after-resume':
+            hit = [1] if (r.get('a_result') == 'still-running' or any(v[1] == 'H/request-not-forwarded' for v in V)) else []
         return (bool(hit), 'native run: a_result=%s, client-originated requests seen by backends=%d, violations=%s' %
                 (r.get('a_result'), sum(1 for rq in data['reqs'] if rq.get('origin') == 'client'), sorted(set((v[0], v[1]) for v in V))))
     return f
